@@ -70,6 +70,34 @@ impl allsorts::outline::OutlineSink for CountSink {
     }
 }
 
+/// (first left glyph, count, first right glyph, count) of the format 2 subtables of a version 0
+/// `kern` table, from the raw bytes.
+fn kern_fmt2_ranges(d: &[u8]) -> Vec<(u16, u16, u16, u16)> {
+    let be = |o: usize| -> Option<u16> { d.get(o..o + 2).map(|b| u16::from_be_bytes([b[0], b[1]])) };
+    let mut out = Vec::new();
+    if be(0) != Some(0) {
+        return out;
+    }
+    let n = be(2).unwrap_or(0);
+    let mut s = 4usize;
+    for _ in 0..n.min(16) {
+        let (Some(len), Some(cov)) = (be(s + 2), be(s + 4)) else { break };
+        if cov >> 8 == 2 {
+            if let (Some(lo), Some(ro)) = (be(s + 8), be(s + 10)) {
+                let (l, r) = (s + usize::from(lo), s + usize::from(ro));
+                if let (Some(lf), Some(ln), Some(rf), Some(rn)) = (be(l), be(l + 2), be(r), be(r + 2)) {
+                    out.push((lf, ln, rf, rn));
+                }
+            }
+        }
+        if len < 6 {
+            break;
+        }
+        s += usize::from(len);
+    }
+    out
+}
+
 fn pe(e: ParseError) -> WalkErr {
     let s = format!("{:?}", e);
     let v: String = s.chars().take_while(|c| c.is_alphanumeric()).collect();
@@ -256,6 +284,19 @@ pub fn parse_table(p: &impl FontTableProvider, t: u32) -> Result<String, WalkErr
                         );
                         for (l, r) in [(0u16, 0u16), (1, 2), (36, 55), (0xffff, 0xffff)] {
                             h.write(format!("{:?}", sub.data().lookup(l, r)).as_bytes());
+                        }
+                        // every pair of the glyphs a class-based (format 2) subtable covers, and
+                        // one glyph beyond each range (ranges read from the raw bytes: the
+                        // parsed form keeps them private)
+                        for (lf, ln, rf, rn) in kern_fmt2_ranges(&d).into_iter().take(4) {
+                            for l in lf..=lf.saturating_add(ln.min(300)) {
+                                for r in rf..=rf.saturating_add(rn.min(300)) {
+                                    crate::util::tick();
+                                    if let Some(v) = sub.data().lookup(l, r) {
+                                        h.write(&v.to_be_bytes());
+                                    }
+                                }
+                            }
                         }
                     }
                     Err(e) => {
